@@ -144,7 +144,20 @@ func oracleC01(r *Result) ([]Violation, bool) {
 			}
 			where := op.Label
 			if op.InStop {
-				where = "StopWithContext"
+				// was the stopping instance still claiming when its stop call was issued?
+				where = "StopWithContext/caller-did-not-lead-at-call"
+				for _, e := range r.Trace {
+					if e.T > op.TIssue {
+						break
+					}
+					if e.K == "api.call" && e.I == op.Inst && strings.HasPrefix(e.S, "stopctx:") {
+						if e.B {
+							where = "StopWithContext/caller-led-at-call"
+						} else {
+							where = "StopWithContext/caller-did-not-lead-at-call"
+						}
+					}
+				}
 			}
 			s.add(op.TApply, "delete-of-foreign-record/"+where, "%s (%s) deleted live record rev %d owned by %s (payload %s) at %v", op.Inst, op.ID, cur.Rev, cur.By, string(cur.Val), op.TApply)
 		}
